@@ -1823,7 +1823,18 @@ impl DtlsInner {
                         } else {
                             (&keys.server_write_key, &keys.server_write_iv)
                         };
-                        let full_seq = ((ctx.epoch as u64) << 48) | ctx.sequence_number;
+                        // Once the handshake has completed, application records draw their
+                        // sequence numbers from `write_seq` (published with `write_epoch`); the
+                        // alert must share that counter or it would reuse the nonce of the
+                        // first application record.
+                        let seq = if ctx.epoch > 0
+                            && self.write_epoch.load(Ordering::SeqCst) == ctx.epoch
+                        {
+                            self.write_seq.fetch_add(1, Ordering::SeqCst)
+                        } else {
+                            ctx.sequence_number
+                        };
+                        let full_seq = ((ctx.epoch as u64) << 48) | seq;
                         if let Ok(encrypted) = encrypt_record(
                             ContentType::Alert,
                             ProtocolVersion::DTLS_1_2,
@@ -1836,7 +1847,7 @@ impl DtlsInner {
                                 content_type: ContentType::Alert,
                                 version: ProtocolVersion::DTLS_1_2,
                                 epoch: ctx.epoch,
-                                sequence_number: ctx.sequence_number,
+                                sequence_number: seq,
                                 payload: Bytes::from(encrypted),
                             };
                             let mut buf = BytesMut::new();
